@@ -20,6 +20,7 @@ up to the next //@ line):
   //@ head                                   payload spliced at the opening brace of the body
   //@ loop <k> inv                           payload spliced between header and body of loop ordinal k
   //@ loop <k> head | loop <k> tail          payload at the start / end of the body of loop ordinal k
+  //@ loop <k> after                         payload right after the closing brace of loop ordinal k
   //@ loop <k> iter <name>                   rule R8: `for P in E` -> `for P in <name>: E`
   //@ body external                          body replaced by unimplemented!() + #[verifier::external_body] (trusted, logged)
   //@ end                                    closes fn / impl / trait / macro block
@@ -312,6 +313,8 @@ def splice_fn(text, spl, name, log):
                 inserts.append((ct[lo].end, "\n" + lsp["head"].rstrip() + "\n"))
             if lsp.get("tail", "").strip():
                 inserts.append((ct[lc].start, "\n" + lsp["tail"].rstrip() + "\n"))
+            if lsp.get("after", "").strip():
+                inserts.append((ct[lc].end, "\n" + lsp["after"].rstrip() + "\n"))
             if lsp.get("iter"):
                 if ct[kw].text != "for":
                     raise LostAnchor(f"fn {name}: loop {k} is not a for loop")
@@ -584,6 +587,9 @@ class Unit:
             new = apply_rewrites(text, self.rewrites, f"{rel}::{target}")
             if kind == "struct":
                 new = make_fields_pub(new)
+            if kind in ("struct", "enum") and not new.lstrip().startswith("pub"):
+                new = "pub " + new.lstrip()
+                self.rewrites.append({"rule": "R6", "in": f"{rel}::{target}", "before": f"{kind} {target}", "after": f"pub {kind} {target}"})
             self.record(src, it, f"{kind} {target}", text, new)
             self.emit(p.rstrip() + "\n" + new if p.strip() else new, f"{rel}::{kind} {target}")
             if j < len(tl) and tl[j].strip() == "//@ end":
